@@ -364,7 +364,8 @@ def c13(tapes, params):
     mode = params.get('mode') or mode
     nops = g.between(2, params.get('max_ops', 12), 'nops')
     depth = g.between(1, 8, 'depth')
-    multiple = g.choice([0, 0, 250, 500], 'multiple')
+    # small packet budgets as well: several Multiple Service Packets in flight for a dozen operations
+    multiple = g.choice([0, 0, 250, 500, 100, 60], 'multiple')
     tmo = g.choice([1.0, 5.0, 0.5], 'timeout')
     # fault plan for the client's connections (connection index >= 1: index 0 is the boot session)
     kind = g.weighted([(3, 'FIN'), (3, 'RST'), (2, 'STALL'), (2, 'DROP'), (1, 'C2S'), (1, 'SLOW'), (1, 'NONE')], 'fkind')
